@@ -26,6 +26,7 @@ type replyAnalysis struct {
 	queueOut    []*types.Func
 	routeMaster *types.Func
 	active      map[*ssa.Function]bool
+	initExempt  bool
 }
 
 func (c *Ctx) newReplyAnalysis() *replyAnalysis {
@@ -193,10 +194,68 @@ func (ra *replyAnalysis) cuts(fn *ssa.Function) map[core.Edge]bool {
 			}
 		}
 	})
+	// a merged test: `var err error; if a { x, err = f() } else { x, err = g() }; if err != nil { return err }`
+	// where f and g both reply on their error paths
+	repliesErr := func(v ssa.Value) bool {
+		if k, ok := v.(*ssa.Const); ok && k.Value == nil {
+			return true
+		}
+		ex, ok := v.(*ssa.Extract)
+		if !ok {
+			return false
+		}
+		call, ok := ex.Tuple.(*ssa.Call)
+		if !ok {
+			return false
+		}
+		cal := call.Call.StaticCallee()
+		return cal != nil && cal.Blocks != nil && core.InPkg(cal, "server") && errIndex(cal.Signature) == ex.Index && ra.repliesOnError(cal)
+	}
+	for _, b := range fn.Blocks {
+		if len(b.Instrs) == 0 {
+			continue
+		}
+		ifi, ok := b.Instrs[len(b.Instrs)-1].(*ssa.If)
+		if !ok {
+			continue
+		}
+		a := core.NormCond(ifi.Cond)
+		if a.Op != token.EQL || !core.IsNil(a.Y) {
+			continue
+		}
+		phi, ok := core.Strip(a.X).(*ssa.Phi)
+		if !ok {
+			continue
+		}
+		all := len(phi.Edges) > 0
+		for _, e := range phi.Edges {
+			if !repliesErr(e) {
+				all = false
+			}
+		}
+		if !all {
+			continue
+		}
+		// the edge on which the merged error is non-nil
+		idx := 1
+		if a.Negated {
+			idx = 0
+		}
+		cut[core.Edge{From: b, Idx: idx}] = true
+	}
 	subF := ra.c.field("server", "ClientComMessage", "Sub")
 	pe, _ := core.PassEdges(fn, core.NilGuard("msg.Sub==nil (internal join)", core.IsFieldLoad(subF), true))
 	for e := range pe {
 		cut[e] = true
+	}
+	if ra.initExempt {
+		// a request the server made up itself (ClientComMessage.init false: eviction, account deletion)
+		// is owed no reply
+		initF := ra.c.field("server", "ClientComMessage", "init")
+		pe2, _ := core.PassEdges(fn, core.BoolGuard("!msg.init (server-originated)", core.IsFieldLoad(initF), false))
+		for e := range pe2 {
+			cut[e] = true
+		}
 	}
 	ra.cutMemo[fn] = cut
 	return cut
